@@ -244,8 +244,8 @@ CLAIMS['C08'] = {
             'Stream.WriteSCTP / ReadSCTP), for EVERY interleaving of writes on any stream, Shutdown calls on either or both sides, write-loop passes '
             'with ANY choice of DATA chunks to send or retransmit (cwnd / rwnd / MTU bundling / burst budget / T3, fast-retransmit and RACK marks / stream '
             'scheduler are an input of the pass, quantified over), deliveries of ANY packet ever sent (loss, duplication, reordering, delay, stale replay of '
-            'DATA, SACK, SHUTDOWN, SHUTDOWN-ACK, SHUTDOWN-COMPLETE), T2 / T3 / delayed-ack expiries, reads and transport failures: '
-            '(1) C08_shutdown_ok_implies_delivered_partial (+ C08_shutdown_nil_on_transport_failure_witness): if Shutdown has returned nil and the local transport did not fail, every message accepted before the call '
+            'DATA, SACK, SHUTDOWN, SHUTDOWN-ACK, SHUTDOWN-COMPLETE), T2 / T3 / delayed-ack expiries, reads, transport failures, Close and Abort: '
+            '(1) C08_shutdown_ok_implies_delivered (full since the fix of D22; + C08_d22_transport_failure_reports_error, C08_interrupted_shutdown_reports_error: transport failure / Close / Abort during a waiting call give the error): if Shutdown has returned nil, every message accepted before the call '
             'has been handed to the peer\'s streams, what the peer read from each stream is an in-order prefix of what was written to it, and every stream that '
             'reported closure had delivered everything first; (2) C08_no_write_after_shutdown: once a Shutdown call passed its state gate every write is '
             'rejected and queues nothing, OpenStream is refused; (3) C08_shutdown_states_drained: SHUTDOWN-SENT / SHUTDOWN-ACK-SENT only with nothing queued '
@@ -260,9 +260,8 @@ CLAIMS['C08'] = {
             'shutdown scenarios with real loops and timers under seeded fault schedules.',
     'note': NOTE_COMMON + ' Model abstractions: one DATA chunk per message (<= 1100 bytes in the harness); TSNs / ack points as offsets from the initial TSN '
             '(wrap-around is C16); which chunks a pass sends is an input checked for well-formedness only (in the replay it is read off the packets the real code '
-            'emitted); receive buffer never full and streams pre-opened; ackMode normal; no ABORT / RECONFIG / FORWARD-TSN / HEARTBEAT traffic. '
-            'Hypothesis of (1): the transport under the caller did not fail - Shutdown also returns nil when closeWriteLoopCh closes because the local read loop '
-            'ended (DESIGN C08 Partial; witness corpus/C08/known/sd_shutdown_nil_on_local_transport_failure.ops). Liveness is proved for the explicit schedules '
+            'emitted); receive buffer never full and streams pre-opened; ackMode normal; ABORT only as sent by Abort(); no RECONFIG / FORWARD-TSN / HEARTBEAT traffic. '
+            'D22 (Shutdown returned nil on local transport failure / Close / Abort with data still queued) was found with this model and is fixed in /repo; witnesses corpus/C08/sd_d22_*.ops, sd_close_and_abort_during_shutdown.ops. Liveness is proved for the explicit schedules '
             'named, not for arbitrary fair schedules; blocking of the Shutdown caller and real goroutine interleavings are sampled (synctest), not enumerated.',
     'technique': 'Lean 4 proof (inductive invariant over all op lists of a two-endpoint + packet-history model; induction over rounds for liveness) '
                  '+ model/implementation differential replay + executable predicate on implementation outputs + e2e scenarios',
